@@ -60,7 +60,8 @@ Case draw_bits_case(const model::Desc & d)
         } else if (l.kind == "strided" || l.kind == "morton" || l.kind == "hilbert") {
             uint64_t cells = 1;
             for (size_t a = 0; a < l.N; ++a) {
-                uint64_t e = *rc::gen::weightedOneOf<uint64_t>({{2, rc::gen::just<uint64_t>(1)}, {6, in_range<uint64_t>(2, l.N <= 2 ? 7 : l.N == 3 ? 5 : 3)}});
+                // extents include 1, non-powers of two and (rarely) 0: an empty field is a field and can be dumped
+                uint64_t e = *rc::gen::weightedOneOf<uint64_t>({{1, rc::gen::just<uint64_t>(0)}, {4, rc::gen::just<uint64_t>(1)}, {14, in_range<uint64_t>(2, l.N <= 2 ? 7 : l.N == 3 ? 5 : 3)}});
                 c.ext.push_back(e);
                 c.cfg[k].push_back(e);
                 cells *= e;
